@@ -3,6 +3,7 @@ from symx import core, loader, harness as H
 from symx.core import sym_int, reach, sand, sor, snot
 from symx.sbytes import SBytes
 from symx.runner import Job
+from symx import spec_der as R
 
 PROP = "C11"
 MODS = ("der", "_compat")
@@ -52,6 +53,24 @@ def _decoders(der):
     }
 
 
+REF = {
+    "remove_integer": R.ref_integer,
+    "remove_octet_string": R.ref_octet_string,
+    "remove_sequence": R.ref_sequence,
+    "remove_object": R.ref_object,
+    "remove_bitstring_0": lambda s: R.ref_bitstring(s, 0),
+    "remove_bitstring_None": lambda s: R.ref_bitstring(s, None),
+    "remove_constructed": R.ref_constructed,
+}
+
+
+def _ref(name, s):
+    try:
+        return ("ok",) + tuple(REF[name](s))
+    except R.Reject as e:
+        return ("reject", str(e))
+
+
 def _is_suffix(rest, s):
     n = len(s) - len(rest)
     if n < 0:
@@ -75,6 +94,9 @@ def decode_canonical(name, L, tier, template=None):
             v, rest = dec(s)
         except der.UnexpectedDER:
             reach("rejects")
+            ref = _ref(name, s)
+            H.prove(ref[0] == "reject", "%s rejects => input is not canonical DER "
+                    "(X.690 reference accepts it)" % name)
             return
         except core.CannotEncode:
             raise
@@ -85,6 +107,11 @@ def decode_canonical(name, L, tier, template=None):
                     known=())
             return
         reach("accepts")
+        ref = _ref(name, s)
+        H.prove(ref[0] == "ok", "%s accepts => X.690 reference accepts (%s)" % (name, ref[-1] if ref[0] != "ok" else ""))
+        if ref[0] == "ok":
+            H.prove(sand(R.same(v, ref[1]), R.same(rest, ref[2])),
+                    "%s: decoded value and remainder equal the X.690 reference's" % name)
         H.prove(_is_suffix(rest, s), "%s: remainder is the unconsumed suffix" % name)
         consumed = s[: len(s) - len(rest)]
         again = enc(v)
@@ -105,6 +132,11 @@ def read_length_canonical(L):
             v, llen = der.read_length(s)
         except der.UnexpectedDER:
             reach("rejects")
+            try:
+                R.ref_length(s)
+            except R.Reject:
+                return
+            H.prove(False, "read_length rejects a canonical length")
             return
         except core.CannotEncode:
             raise
@@ -112,6 +144,12 @@ def read_length_canonical(L):
             H.prove(False, "read_length raises %s" % type(e).__name__)
             return
         reach("accepts")
+        try:
+            rv, rn = R.ref_length(s)
+        except R.Reject as e:
+            H.prove(False, "read_length accepts what X.690 rejects: %s" % e)
+            return
+        H.prove(sand(rv == v, rn == llen), "read_length agrees with the X.690 reference")
         H.prove(sand(0 < llen, llen <= len(s)), "read_length: consumed within buffer")
         n = core.concretize(llen, "llen")
         again = der.encode_length(v)
@@ -132,6 +170,11 @@ def read_number_canonical(L):
             v, ll = der.read_number(s)
         except der.UnexpectedDER:
             reach("rejects")
+            try:
+                R.ref_number(s)
+            except R.Reject:
+                return
+            H.prove(False, "read_number rejects a minimal sub-identifier")
             return
         except core.CannotEncode:
             raise
@@ -139,6 +182,12 @@ def read_number_canonical(L):
             H.prove(False, "read_number raises %s" % type(e).__name__)
             return
         reach("accepts")
+        try:
+            rv, rn = R.ref_number(s)
+        except R.Reject as e:
+            H.prove(False, "read_number accepts what X.690 rejects: %s" % e)
+            return
+        H.prove(sand(rv == v, rn == ll), "read_number agrees with the X.690 reference")
         n = core.concretize(ll, "ll")
         again = der.encode_number(v)
         H.prove(sand(len(again) == n, again == s[:n]), "read_number: accepted => canonical")
@@ -340,12 +389,26 @@ def replay_decode(inp):
                         der.encode_number),
     }
     dec, enc = fns[name]
+    refs = dict(REF)
+    refs["read_length"] = lambda b: (lambda t: (t[0], b[t[1]:]))(R.ref_length(b))
+    refs["read_number"] = lambda b: (lambda t: (t[0], b[t[1]:]))(R.ref_number(b))
+    try:
+        ref = ("ok",) + tuple(refs[name](s))
+    except R.Reject as e:
+        ref = ("reject", str(e))
     try:
         v, rest = dec(s)
     except der.UnexpectedDER:
+        if ref[0] == "ok":
+            return True, "%s(%r) rejects canonical DER (reference value %r)" % (name, s, ref[1])
         return False, "raises UnexpectedDER (fine)"
     except Exception as e:
         return True, "%s(%r) raises %s: %s" % (name, s, type(e).__name__, e)
+    if ref[0] != "ok":
+        return True, "%s(%r) accepts, X.690 reference rejects: %s" % (name, s, ref[1])
+    norm = lambda x: tuple(norm(y) for y in x) if isinstance(x, (tuple, list)) else (bytes(x) if isinstance(x, (bytes, bytearray, memoryview)) else x)
+    if norm(v) != norm(ref[1]) or bytes(rest) != bytes(ref[2]):
+        return True, "%s(%r) = %r, reference %r" % (name, s, (v, rest), ref[1:])
     consumed = s[: len(s) - len(rest)]
     if not s.endswith(bytes(rest)):
         return True, "remainder %r is not a suffix of %r" % (rest, s)
